@@ -184,7 +184,7 @@ def proof_gate(prop_id):
     res["log"] = out
     if rc != 0:
         rep = os.path.join(COQ, "gen", "access_report.txt")
-        if prop_id == "C09" and os.path.exists(rep) and os.path.getsize(rep) > 0:
+        if prop_id in ("C09", "C08") and os.path.exists(rep) and os.path.getsize(rep) > 0:
             res["log"] += "\nlockset table (translator T2c), unprotected pairs:\n" + open(rep).read()[:6000]
         return res
     src = strip_coq_comments(open(vfile).read())
